@@ -57,13 +57,15 @@ Theorem C20_one_document_within_capacity :
 Proof. exact one_document_no_eviction. Qed.
 Print Assumptions C20_one_document_within_capacity.
 
-(* what "one document" means: one header line (CSV) / one bracket pair (JSON) exactly when there is a record *)
+(* what "one document" means: one header line (CSV, TSV) / one bracket pair (JSON) exactly when there is a record;
+   XTAB: exactly one empty line between consecutive records *)
 Theorem C20_document_has_one_header_one_bracket_pair :
   forall F evs d, single_doc F evs = Some d ->
   let one := if has_rec evs then 1 else 0 in
-  count is_header d = (match F with FCsv => one | _ => 0 end) /\
+  count is_header d = (match F with FCsv | FTsv => one | _ => 0 end) /\
   count is_open d = (match F with FJson => one | _ => 0 end) /\
-  count is_close d = (match F with FJson => one | _ => 0 end).
+  count is_close d = (match F with FJson => one | _ => 0 end) /\
+  count is_blank d = nblank F (pred (List.length (recs_of_events evs))).
 Proof. exact single_doc_shape. Qed.
 Print Assumptions C20_document_has_one_header_one_bracket_pair.
 
@@ -104,6 +106,52 @@ Proof.
   exact (ex_intro _ 256 (ex_intro _ (witness_ops 256) (ex_intro _ (wname 0) (conj eq_refl witness_json_256)))).
 Qed.
 Print Assumptions C20_one_document_beyond_capacity_json_refuted.
+
+(* the same defect under XTAB loses a record BOUNDARY: the separating empty line is not written after a re-open,
+   so two records read back as one (smallest instance: capacity 1, targets Aa Ab Aa) *)
+Theorem C20_one_document_beyond_capacity_xtab_refuted :
+  render FXtab (final MWrite 1 FXtab (witness_ops 1) empty_store (wname 0)) = B "a 0
+b x
+a 1
+b x
+" /\ (forall d, single_doc FXtab (events_of (wname 0) (witness_ops 1)) = Some d -> render FXtab d = B "a 0
+b x
+
+a 1
+b x
+").
+Proof. exact witness_xtab_small. Qed.
+Print Assumptions C20_one_document_beyond_capacity_xtab_refuted.
+
+(* true LRU: at every moment the open handlers are exactly the max(c,1) most recently used distinct targets, most
+   recent first -- so the handler that gets closed on a miss at capacity is the least recently used one *)
+Theorem C20_open_set_is_most_recently_used :
+  forall md c F ops fs0, is_pipe md = false -> m_err (run md c F ops fs0) = false ->
+  map fst (m_open (run md c F ops fs0)) = firstn (Nat.max c 1) (recency (targets_of ops)).
+Proof. exact open_is_most_recent. Qed.
+Print Assumptions C20_open_set_is_most_recently_used.
+
+(* what a repair of lru-evict-reopen-repeats-header must achieve, shown for the keep_writer_on_evict variant of the
+   manager (Model.runR: eviction keeps the record writer, re-open resumes it, Close finishes evicted targets too):
+   ONE document per target for EVERY format, ANY number of targets, any capacity; untouched targets unchanged *)
+Theorem C20_one_document_repaired_manager :
+  forall md c F ops fs0, r_err (runR md c F ops fs0) = false ->
+  forall t,
+  (touched t ops = true ->
+   exists d, single_doc F (events_of t ops) = Some d /\ finalR md c F ops fs0 t = base md fs0 t ++ d) /\
+  (touched t ops = false -> finalR md c F ops fs0 t = fs0 t).
+Proof. exact one_document_repaired. Qed.
+Print Assumptions C20_one_document_repaired_manager.
+
+(* ... and on the 257-target witness the repaired variant writes one header / one bracket pair *)
+Theorem C20_repaired_manager_on_witness :
+  let ops := witness_ops 256 in
+  r_err (runR MWrite 256 FCsv ops empty_store) = false /\
+  count is_header (finalR MWrite 256 FCsv ops empty_store (wname 0)) = 1 /\
+  count is_open (finalR MWrite 256 FJson ops empty_store (wname 0)) = 1 /\
+  count is_close (finalR MWrite 256 FJson ops empty_store (wname 0)) = 1.
+Proof. exact repaired_on_witness. Qed.
+Print Assumptions C20_repaired_manager_on_witness.
 
 (* tee passes every record on and sees every record even when a later head stops early: the tee stage does not
    forward the downstream-done flag, so the reader is never told to stop.  _partial: this is the flag-propagation
